@@ -104,59 +104,67 @@ Proof. exists (run vip_log st0).1. split; [apply CReach_run|exact vip_repaired_e
      forall s, CReach s ->
        ksn s = recompute_ksn s /\ (forall id, stored_usage s id = recompute_usage s id) /\
        stored_gws s = recompute_gws s /\ topo s = recompute_topo s.
-   Each conjunct is refuted below by a reachable state (the same histories fail on the real store:
-   harness/catalog corpus); what does hold is stated after each refutation. *)
+   The usage conjunct holds (C07_derived_usage).  The other three are refuted below by reachable states
+   (the same histories fail on the real store: harness/catalog corpus); what does hold is stated next
+   to each refutation. *)
 
 (* ---- usage counts ---- *)
-Theorem C07_derived_usage_refuted : exists s, CReach s /\
-  stored_usage s billable_usage = 0 /\ recompute_usage s billable_usage = 1.
-Proof. exists (run usage_log st0).1. split; [apply CReach_run|exact usage_witness]. Qed.
-
 (* the node, instance, service-name, connect-kind, connect-native and billable counters equal the counts
-   recomputed from the rows in every state reached without ever having an instance named "consul"
-   (CReachNC: reachable, and after every command no instance is named "consul") *)
-Theorem C07_derived_usage_partial : forall s, CReachNC s ->
+   recomputed from the rows in every reachable state.  Full statement since /repo 10e7cca; before, the
+   billable count was refuted by an instance renamed to "consul". *)
+Theorem C07_derived_usage : forall s, CReach s ->
   forall id, id ∈ svc_usage_ids -> stored_usage s id = recompute_usage s id.
-Proof. intros s H. apply (usage_recomputed s H). Qed.
+Proof. exact usage_recomputed. Qed.
 
-(* one commit step, for arbitrary states: if the counters were right before and no instance is named
-   "consul" before or after, they are right after *)
+(* one commit step, for arbitrary states: if the counters were right before, they are right after *)
 Theorem C07_derived_usage_step : forall before after,
   (forall id, id ∈ svc_usage_ids -> stored_usage before id = recompute_usage before id) ->
-  no_consul (services before) -> no_consul (services after) ->
   forall id, id ∈ svc_usage_ids -> stored_usage (commit_usage before after) id = recompute_usage (commit_usage before after) id.
 Proof. exact commit_usage_ok. Qed.
 
-(* non-vacuity: a state reached without "consul" in which every counter is non-zero or changes *)
+(* non-vacuity: a reachable state in which every counter is non-zero or changes; and the history that
+   used to refute the statement (a proxy renamed to "consul" next to a billable service) *)
 Example C07_derived_usage_example :
   let s := (run usage_example_log st0).1 in
-  CReachNC s /\ stored_usage s "nodes" = 2 /\ stored_usage s "services" = 3 /\ stored_usage s "service-names" = 3 /\
+  CReach s /\ stored_usage s "nodes" = 2 /\ stored_usage s "services" = 3 /\ stored_usage s "service-names" = 3 /\
   stored_usage s (connect_usage KTermGW) = 1 /\ stored_usage s native_usage = 1 /\ stored_usage s billable_usage = 1.
 Proof. exact usage_example. Qed.
 
+Example C07_derived_usage_consul_example :
+  let s := (run usage_log st0).1 in
+  stored_usage s billable_usage = 1 /\ recompute_usage s billable_usage = 1.
+Proof. exact usage_repaired_example. Qed.
+
 (* ---- kind-service-names ---- *)
-(* a name used by instances of two kinds, and an instance re-registered under another name *)
+(* FULL STATEMENT (still false): forall s, CReach s -> ksn s = recompute_ksn s.  Two reachable states
+   with a row no registration or config entry justifies:
+   (1) an instance re-registered under another name (or kind): a re-registration never passes through
+       deleteServiceTxn, so the old (kind, name) pair stays;
+   (2) a service-defaults entry that loses its Destination by an update: only the delete path removes
+       the (destination, name) pair.
+   (The third class, a name shared by instances of two kinds, is repaired by /repo 0bb54ea:
+   C07_derived_kindnames_shared_example.) *)
 Theorem C07_derived_kindnames_refuted :
-  (exists s, CReach s /\ ("connect-proxy", "web") ∈ ksn s /\ ksn s ≠ recompute_ksn s) /\
-  (exists s, CReach s /\ ksn s ≠ recompute_ksn s).
+  (exists s, CReach s /\ ("", "db") ∈ ksn s /\ ("", "db") ∉ recompute_ksn s /\ ksn s ≠ recompute_ksn s) /\
+  (exists s, CReach s /\ ("destination", "ext") ∈ ksn s /\ recompute_ksn s = ∅).
 Proof.
   split.
-  - exists (run ksn_log st0).1. split; [apply CReach_run|exact kindnames_witness].
   - exists (run ksn_log2 st0).1. split; [apply CReach_run|exact kindnames_witness2].
+  - exists (run ksn_log3 st0).1. split; [apply CReach_run|exact kindnames_witness3].
 Qed.
 
 (* kind-service-names equals its recomputation in every state reached under a naming discipline D:
    every instance key (node, service id) is always registered with the same name, kind, native flag
-   and destination (d_def), every name is used with one kind (d_kind), and the service-defaults entry
-   of a name always or never carries a destination (d_dest) — exactly the histories the three
-   refutations (name shared across kinds, instance redefined, destination dropped by an update) are
-   not in.  [cmd_ok D c] is the syntactic condition on a command; CReachD D closes st0 under the
-   commands that satisfy it. *)
+   and destination (d_def), and the service-defaults entry of a name always or never carries a
+   destination (d_dest) — exactly the histories the two refutations are not in; a name MAY be shared
+   by instances of several kinds.  [cmd_ok D c] is the syntactic condition on a command; CReachD D
+   closes st0 under the commands that satisfy it. *)
 Theorem C07_derived_kindnames_partial : forall (D : discipline) s, CReachD D s -> ksn s = recompute_ksn s.
 Proof. exact kindnames_recomputed. Qed.
 
 (* non-vacuity: a discipline and a history under it (a service, its sidecar proxy, a connect-native
-   service registered by a transaction, a destination, a wildcard gateway; then deregistrations) *)
+   service registered by a transaction, a destination, a wildcard gateway, a proxy registered under
+   the name of the service; then deregistrations) *)
 Example C07_derived_kindnames_example :
   CReachD example_discipline (run (take 8%nat kn_example_log) st0).1 /\
   ksn (run (take 8%nat kn_example_log) st0).1 =
@@ -165,6 +173,12 @@ Example C07_derived_kindnames_example :
   CReachD example_discipline (run kn_example_log st0).1 /\
   ksn (run kn_example_log st0).1 = {[ ("connect-proxy", "web-proxy"); ("connect-enabled", "web") ]}.
 Proof. exact kn_example. Qed.
+
+(* the history that used to leave a row behind (a proxy named like a service; the proxy's node goes) *)
+Example C07_derived_kindnames_shared_example :
+  let s := (run ksn_log st0).1 in
+  ("connect-proxy", "web") ∉ ksn s /\ ("", "web") ∈ ksn s /\ ksn s = recompute_ksn s.
+Proof. exact kindnames_repaired_example. Qed.
 
 (* ---- mesh-topology ---- *)
 (* What holds (the content of /repo acb191c), for arbitrary states: registering an instance adds it to
@@ -209,17 +223,48 @@ Proof.
 Qed.
 
 (* ---- gateway-services ---- *)
-(* a service listed next to the wildcard is overwritten by the wildcard on registration and removed on
-   deregistration *)
+(* repaired (/repo a882280, 948377c): a service listed next to the wildcard of the same entry keeps its
+   listed row through registration and deregistration, and every row of a service learns a new
+   service kind *)
+Example C07_derived_gateway_example :
+  stored_gws (run (take 2 gws_log) st0).1 = recompute_gws (run (take 2 gws_log) st0).1 /\
+  stored_gws (run (take 2 gws_log) st0).1 !! ("tgw", "web", 0) = Some (KTermGW, false) /\
+  stored_gws (run gws_log st0).1 = recompute_gws (run gws_log st0).1 /\
+  stored_gws (run gws_log st0).1 !! ("tgw", "web", 0) = Some (KTermGW, false).
+Proof. exact gateway_repaired_example. Qed.
+
+Example C07_derived_gateway_rows_example :
+  let s := (run gws_rows_log st0).1 in
+  gws s !! ("tgw", "ext", 0) = Some (GS KTermGW false GDestination) /\
+  gws s !! ("tgw2", "ext", 0) = Some (GS KTermGW false GDestination).
+Proof. exact gateway_rows_repaired_example. Qed.
+
+(* FULL STATEMENT (still false): forall s, CReach s -> stored_gws s = recompute_gws s.  What is still
+   wrong is order dependence around wildcards, and the missing cleanup on re-registration:
+   (1) the SAME two commands in both orders — a sidecar proxy of "db" (no instance named db) and an
+       ingress entry with "*" — give different tables: the association (igw, db) exists only if the
+       proxy registers after the entry is written;
+   (2) likewise a service-defaults destination gets an association with a wildcard INGRESS gateway
+       only if it is written before the entry;
+   (3) an instance re-registered under another name leaves the wildcard-derived association of its
+       old name behind. *)
 Theorem C07_derived_gateway_refuted :
-  (exists s, CReach s /\ stored_gws s !! ("tgw", "web", 0) = Some (KTermGW, true) /\
-             recompute_gws s !! ("tgw", "web", 0) = Some (KTermGW, false)) /\
-  (exists s, CReach s /\ stored_gws s !! ("tgw", "web", 0) = None /\
-             recompute_gws s !! ("tgw", "web", 0) = Some (KTermGW, false)).
+  (let a := (run [(3, igw_conf); (4, igw_proxy)] st0).1 in
+   let b := (run [(3, igw_proxy); (4, igw_conf)] st0).1 in
+   CReach a /\ CReach b /\
+   stored_gws a !! ("igw", "db", 8080) = Some (KIngressGW, true) /\ stored_gws b !! ("igw", "db", 8080) = None /\
+   recompute_gws a = recompute_gws b /\ stored_gws b ≠ recompute_gws b) /\
+  (let a := (run [(3, ConfSet "ext" (CDefaults true)); (4, igw_conf)] st0).1 in
+   let b := (run [(3, igw_conf); (4, ConfSet "ext" (CDefaults true))] st0).1 in
+   CReach a /\ CReach b /\
+   stored_gws a !! ("igw", "ext", 8080) = Some (KIngressGW, true) /\ stored_gws b !! ("igw", "ext", 8080) = None /\
+   recompute_gws a = recompute_gws b /\ stored_gws a ≠ recompute_gws a) /\
+  (exists s, CReach s /\ stored_gws s !! ("tgw", "api", 0) = Some (KTermGW, true) /\ recompute_gws s !! ("tgw", "api", 0) = None).
 Proof.
-  destruct gateway_witness as (H1 & H2 & H3 & H4). split.
-  - exists (run (take 2 gws_log) st0).1. split; [apply CReach_run|split; assumption].
-  - exists (run gws_log st0).1. split; [apply CReach_run|split; assumption].
+  split; [|split].
+  - cbv zeta. split; [apply CReach_run|]. split; [apply CReach_run|]. exact gateway_order_witness.
+  - cbv zeta. split; [apply CReach_run|]. split; [apply CReach_run|]. exact gateway_order_witness2.
+  - exists (run gws_redef_log st0).1. split; [apply CReach_run|exact gateway_redef_witness].
 Qed.
 
 (* non-vacuity for the virtual IP theorems: two services with addresses 1 and 2, a connect-native
@@ -241,15 +286,18 @@ Print Assumptions C07_cascade_service_catalog.
 Print Assumptions C07_vip_unique.
 Print Assumptions C07_vip_advertised.
 Print Assumptions C07_vip_advertised_example.
-Print Assumptions C07_derived_usage_refuted.
-Print Assumptions C07_derived_usage_partial.
+Print Assumptions C07_derived_usage.
+Print Assumptions C07_derived_usage_consul_example.
 Print Assumptions C07_derived_usage_step.
 Print Assumptions C07_derived_usage_example.
 Print Assumptions C07_derived_kindnames_refuted.
 Print Assumptions C07_derived_kindnames_partial.
 Print Assumptions C07_derived_kindnames_example.
+Print Assumptions C07_derived_kindnames_shared_example.
 Print Assumptions C07_topology_refs_kept.
 Print Assumptions C07_topology_other_destination.
 Print Assumptions C07_derived_topology_example.
 Print Assumptions C07_derived_topology_refuted.
+Print Assumptions C07_derived_gateway_example.
+Print Assumptions C07_derived_gateway_rows_example.
 Print Assumptions C07_derived_gateway_refuted.
